@@ -285,6 +285,10 @@ func runC18(env *lib.Env, rep *lib.Report) {
 			e := guard(func() error { return w.sess.ExecQuery(q) })
 			storage.VerifSetFuel(-1)
 			judge(state, q, e)
+			if !storage.VerifLockFree(w.sess.RelationService) {
+				rep.AddFailure(&lib.Failure{Kind: "hang", Detail: fmt.Sprintf("[session state %s] %s returned (%v) but still holds the store lock: the next timer flush, CREATE TABLE or USE blocks forever", state, clip(q, 200), e), Trace: []string{state, q}})
+				break
+			}
 		}
 		w.destroy()
 		for _, q := range muts {
@@ -300,6 +304,9 @@ func runC18(env *lib.Env, rep *lib.Report) {
 			e := guard(func() error { return w.sess.ExecQuery(q) })
 			storage.VerifSetFuel(-1)
 			judge(state, q, e)
+			if !storage.VerifLockFree(w.sess.RelationService) {
+				rep.AddFailure(&lib.Failure{Kind: "hang", Detail: fmt.Sprintf("[session state %s] %s returned (%v) but still holds the store lock: the next timer flush, CREATE TABLE or USE blocks forever", state, clip(q, 200), e), Trace: []string{state, q}})
+			}
 			// the session must still answer a plain query afterwards
 			storage.VerifSetFuel(worldFuel)
 			e2 := guard(func() error { return w.sess.ExecQuery("SELECT * FROM t") })
